@@ -97,6 +97,12 @@ def judgeTransport (t : Transport) (k : Nat) (o : Obs) : List String :=
   ++ chk "C15" k (decide (C15 o.journal o.outcome))
   ++ (if faultFree o.journal then chk "C15" k (match o.outcome with | .err (.io _) => false | .err (.pin _) => false | .panic => false | _ => true) else [])
 
+def isRd : Acc → Bool | .rd _ _ _ => true | _ => false
+
+def plannedReads (acts : List Act) : List Acc :=
+  (acts.filter (fun a => match a with | .rd _ _ => true | _ => false)).map
+    (fun a => match a with | .rd a n => Acc.rd a n true | _ => Acc.lowFailed)
+
 def judgeCtor (c : Case) (o : Obs) : List String :=
   let t := c.ctor.transport c.dev
   judgeTransport t 0 o ++
@@ -105,7 +111,29 @@ def judgeCtor (c : Case) (o : Obs) : List String :=
     | none => ["decode@0"]
     | some accs =>
       chk "C18" 0 (decide (C18 c.ctor (c.low.getD 0 0#8) (o.shadow.getD shadowDefault) accs o.outcome))
+      ++ chk "reads" 0 ((accs.filter isRd) == plannedReads c.ctor.acts)
    else [])
+
+def judgeFifo (c : Case) (k : Nat) (n : Nat) (v : String) : List String :=
+  let buf := (List.range n).map (fun i => c.fifo.getD i 0#8)
+  chk "C05" k (Fifo.judgeC05 buf v)
+  ++ (match c.fspec with
+      | none => []
+      | some sp =>
+        match Fifo.parseSpecs sp, Fifo.parseTail c.ftail with
+        | some fs, some tl => chk "C04" k (Fifo.judgeC04 fs tl buf v)
+        | _, _ => [s!"C04spec@{k}"])
+
+/-- every read of a fault-free call is one access of exactly the planned register and length;
+    `sh` is the recorded configuration the call started from (`none` in quiet mode: then a
+    refused FIFO read, which plans no access, is tolerated) -/
+def readsOk (sh : Option Regs) (op : Op) (accs : List Acc) (ff : Bool) : Bool :=
+  if !ff then true
+  else
+    let got := accs.filter isRd
+    match sh with
+    | some sh => got == plannedReads (op.plan sh).acts
+    | none => got == plannedReads (op.plan shadowDefault).acts || got == []
 
 def judgeOp (c : Case) (k : Nat) (op : Op) (prev : Obs) (o : Obs) : List String :=
   let t := c.ctor.transport c.dev
@@ -135,15 +163,7 @@ def judgeOp (c : Case) (k : Nat) (op : Op) (prev : Obs) (o : Obs) : List String 
       | .readFifo n =>
         if ff then chk "C19" k (decide (C19 pre op accs o.outcome))
           ++ (match o.outcome with
-              | .ok v =>
-                let buf := (List.range n).map (fun i => c.fifo.getD i 0#8)
-                chk "C05" k (Fifo.judgeC05 buf v)
-                ++ (match c.fspec with
-                    | none => []
-                    | some sp =>
-                      match Fifo.parseSpecs sp, Fifo.parseTail c.ftail with
-                      | some fs, some tl => chk "C04" k (Fifo.judgeC04 fs tl buf v)
-                      | _, _ => [s!"C04spec@{k}"])
+              | .ok v => judgeFifo c k n v
               | .panic => [s!"C05@{k}"]
               | _ => [])
         else []
@@ -153,10 +173,20 @@ def judgeOp (c : Case) (k : Nat) (op : Op) (prev : Obs) (o : Obs) : List String 
       | .softReset => chk "C11" k (decide (C11 shPost accs o.outcome))
       | _ => if ff then chk "C17" k (decide (C17 pre op accs o.outcome)) else []
     tr ++ coherentOk ++ specific
+      ++ chk "reads" k (readsOk (some shPre) op accs ff)
   | none, _, _, _, _ => tr ++ [s!"decode@{k}"]
-  | _, _, _, _, _ =>
-    -- quiet case: only what needs no dumps
-    tr
+  | some accs, _, _, _, _ =>
+    -- quiet case (no register dumps): what needs only the case and the result
+    tr ++ (match op with
+      | .readFifo n =>
+        if faultFree o.journal then
+          match o.outcome with
+          | .ok v => judgeFifo c k n v
+          | .panic => [s!"C05@{k}"]
+          | _ => []
+        else []
+      | _ => [])
+      ++ chk "reads" k (readsOk none op accs (faultFree o.journal))
 
 def judgeLine (line : String) : String :=
   match line.splitOn "\t" with
@@ -169,7 +199,7 @@ def judgeLine (line : String) : String :=
       | id :: first :: rest =>
         match parseObs first, rest.mapM parseObs with
         | some o0, some os =>
-          let chip0 := Chip.powerOn (fun a => c.low.getD a 0#8) c.pos c.neg c.fifo
+          let chip0 := Chip.powerOn (fun a => c.low.getD a 0#8) c.pos c.neg c.fifo c.dummy
           let o0' : Obs := { o0 with chip := o0.chip }
           let r0 := judgeCtor c o0'
           let prev0 : Obs := { o0 with chip := match o0.chip with | some x => some x | none => some chip0.regs,
